@@ -137,13 +137,16 @@ CHECKS = {
               'not reuse q or L, the application sees at most one outcome carrying L, and exactly one once the response carrying q '
               'is handled or a request is stored / a response handled after the time-to-live (provided responses carrying q have the '
               'right type: the other case is the known finding); no_outcome_for_unknown_log_id - for all messages, segmented or '
-              'not, a log id no stored request carries never appears in an outcome; segmented_message_at_most_once '
+              'not, a log id no stored request carries never appears in an outcome; segmented_message_exactly_once '
               '(Lemmas/SegHistory.lean, phase invariant open(k segments stored)/closed over woven histories) - for a message '
               'split into n segments whose requests are woven in order into any other traffic (other numbers, log ids and '
               'references), with responses to its segments in any order, accepted, rejected, nacked, wrong-typed, duplicated or '
-              'missing, and any subset of its segments timing out in any sweep, at most one outcome carries its log id. NOT yet a '
-              'theorem: that a segmented message gets AT LEAST one outcome once all its segments are settled (covered by the '
-              'correspondence + ledger predicate on generated histories only). Session level (no theorem): the real ESME.start() on a '
+              'missing, and any subset of its segments timing out in any sweep: at most one outcome carries its log id, and '
+              'exactly one if at the end of the history none of its segment requests is outstanding in the correlator and '
+              'every response that carried one of its numbers had a proper type. Hypotheses exclude exactly the two known '
+              'findings (reference reuse, wrong-type response); delivery receipts interleaved with the responses of a segmented '
+              'message are not part of these histories (C02). Not a theorem: that the outcome of a segmented message is a '
+              'failure iff some segment failed is proved at the aggregation level (failure_dominates), not restated on histories. Session level (no theorem): the real ESME.start() on a '
               'virtual-time loop with a scripted SMSC (accept / reject / throttle / nack / silence / late), suspending hooks, back-pressure and '
               'dropped connections is judged by the ledger predicate (exactly one outcome per queued message, every response attributed, '
               'time-outs neither early nor late); it found the repaired defects 0eac14c, 829a54d, c79eab3 and two further known findings: '
